@@ -173,7 +173,10 @@ def gen_box(rng):
             n = n // 2
     else:
         n = rng.choice([0, 1, 2, 3, 5, 8])
-    return {"kind": "box", "p1": p1, "p2": p2, "n": n, "mode": mode, "pc": pc, "seed": rng.randrange(1 << 30)}
+    c = {"kind": "box", "p1": p1, "p2": p2, "n": n, "mode": mode, "pc": pc, "seed": rng.randrange(1 << 30)}
+    if rng.random() < 0.25:
+        c["corners"] = rng.choice(["pad_other", "mutate"])
+    return c
 
 
 def gen_polyline(rng):
@@ -326,7 +329,8 @@ def gen_curve(rng, exact):
     elif rng.random() < 0.04:
         P = [list(P[0]) for _ in P]       # all control points coincide
     t = dyadic_param(rng, 16) if exact else rng.choice([rng.random(), rng.random(), 1 / 3, 0.1, 1 - 2 ** -53, 2 ** -40,
-                                                        1 + 2 ** -52, -2 ** -60])
+                                                        1 + 2 ** -52, -2 ** -60, float("nan"), float("inf"), float("-inf"),
+                                                        -0.0, float("nan")])
     return add_alias(rng, {"kind": "curve", "P": P, "t": t, "exact": exact}, False)
 
 
@@ -340,7 +344,9 @@ def gen_patch(rng, exact):
     if exact:
         u, v = dyadic_param(rng, 8), dyadic_param(rng, 8)
     else:
-        u, v = rng.random(), rng.choice([rng.random(), 1 / 3, 1.0, 0.0])
+        u, v = rng.random(), rng.choice([rng.random(), 1 / 3, 1.0, 0.0, float("nan"), float("inf"), -0.0])
+        if rng.random() < 0.15:
+            u, v = rng.choice([float("nan"), float("-inf"), 1 + 2 ** -52]), rng.random()
     return add_alias(rng, {"kind": "patch", "rows": rows, "u": u, "v": v, "exact": exact}, True)
 
 
@@ -357,8 +363,8 @@ def gen_polylinex(rng, small=None):
     custom = sorted(rng.randint(0, 16) / 16 for _ in range(m))
     if m == 0:
         return {"kind": "polylinex", "P": P, "n_pts": rng.choice([None, 3]), "custom": []}
-    if rng.random() < 0.08:
-        custom[rng.randrange(m)] = rng.choice([1.25, -0.5])
+    if rng.random() < 0.12:
+        custom[rng.randrange(m)] = rng.choice([1.25, -0.5, float("nan"), float("inf"), float("nan")])
     n_pts = None if rng.random() < 0.5 else rng.choice([0, 1, 2, 3, 5, 9])
     return add_alias(rng, {"kind": "polylinex", "P": P, "n_pts": n_pts, "custom": custom}, False)
 
@@ -918,7 +924,7 @@ def run_one(case):
 def klass(c, msg):
     k = c["kind"]
     if k == "box":
-        return "box/" + c["mode"]
+        return "box/" + c["mode"] + ("/corner-arrays-" + c["corners"] if c.get("corners") else "")
     if k == "ball":
         return "ball/" + ("r<1" if c["radius"] < 1 else "r>=1")
     if k == "surfacex":
@@ -1041,6 +1047,10 @@ def run(ctx):
         if k == "surfacex":
             ctx.count("as_surface n1%sn2" % ("=" if c["n1"] == c["n2"] else "!="))
         ctx.count("call form: " + c.get("form", "kw"))
+        if c.get("corners"):
+            ctx.count("box corners given as float ndarrays, then " + c["corners"])
+        if any(isinstance(x, float) and x != x for x in [c.get("t"), c.get("u"), c.get("v")] + list(c.get("custom") or [])):
+            ctx.count("NaN parameter")
         for q, v in (c.get("rep") or {}).items():
             ctx.count("representation %s=%s" % (q, v))
         for q in ("net_as", "custom_as", "twice", "scale", "flat_face"):
